@@ -129,7 +129,7 @@ C14_SPEC = dict(
     module="LMIo.C14io",
     harness_args=["c14"],
     driver_args=["c14"],
-    n={"quick": 160, "thorough": 2500},
+    n={"quick": 160, "thorough": 2000},
     search_n={"quick": 300, "thorough": 3000},
     nontrivial=_nontrivial_c14,
     histogram=_hist_c14,
